@@ -224,6 +224,9 @@ fn run_case(base: &Base, path: &str, slot: usize, d: &Damage) -> CaseResult {
                     let bytes = crate::runner::read_db_file(path, ps as u64);
                     match fileck::check(&bytes, ps as u64) {
                         Ok(rep) if !rep.ok() => res.class = Some(("fileck".into(), format!("after a follow-up commit: {}", rep.errors[0]))),
+                        Ok(rep) if rep.tx_id >= 1 && rep.other_tx_id != Some(rep.tx_id - 1) => {
+                            res.class = Some(("header_slots".into(), format!("after the follow-up commit (transaction {}) the other header slot holds {} instead of the valid header it fell back on (transaction {}): one more damaged header and nothing is left", rep.tx_id, rep.other_tx_id.map(|t| format!("transaction {}", t)).unwrap_or_else(|| "no valid header".into()), rep.tx_id - 1)))
+                        }
                         Err(e) => res.class = Some(("fileck".into(), e)),
                         _ => {}
                     }
